@@ -9,8 +9,12 @@ package scheduler
 // Lock wrappers (C14)
 
 //@ func (*InMemoryBuildQueue).enter
-//@   props C14
+//@   props C14 C06
 //@   lockeffect bq.lock +1
+//@   ensures time-never-moves-backwards: bq.now == ite(t > old(bq.now), t, old(bq.now))
+//@   at call run#1 assert due-clean-ups-run-against-the-new-time: arg1 == t && bq.now == t && arg0 == &bq.cleanupQueue
+//@   at call run#1 ghostset cleanupsran[nil] = 1
+//@   ensures clean-ups-run-whenever-time-advanced: t > old(bq.now) ==> cleanupsran(nil) == 1
 //@   havoc F:pkg/scheduler.worker.terminating F:pkg/scheduler.sizeClassQueue.drains F:pkg/scheduler.worker.wakeup -- while the lock was not held another thread may have marked workers as terminating (TerminateWorkers, worker clean-up) or changed the set of drains (AddDrain, RemoveDrain; modelled as a different drain set), or woken up and dequeued an idle worker (wakeUp clears worker.wakeup)
 //@ func (*InMemoryBuildQueue).leave
 //@   props C14
@@ -22,7 +26,12 @@ package scheduler
 // Every Execute request that got a selector from the action router gives it
 // exactly one of Select / Abandoned (selcalls is the per-call count).
 //@ func (*InMemoryBuildQueue).Execute
-//@   props C07 C03
+//@   props C07 C03 C05
+//@   at call Select#1 assert the-selector-chooses-among-the-size-classes-of-the-resolved-platform-queue:
+//@             pq == bq.platformQueues[platformQueueIndex] && arg1 == pq.sizeClasses
+//@   at call getOrCreateInvocation#2 assert the-task-is-queued-on-the-size-class-queue-that-was-selected:
+//@             arg0 == pq.sizeClassQueues[sizeClassIndex] && pq == bq.platformQueues[platformQueueIndex]
+//@   at call getOrCreateInvocation#2 assert the-task-carries-the-expected-duration-the-selector-gave: t.expectedDuration == expectedDuration
 //@   ensures selector-gets-exactly-one-call:
 //@             initialSizeClassSelector != nil ==> selcalls(initialSizeClassSelector) == 1
 //@   at call newOperation#2 assert only-cacheable-actions-are-registered:
@@ -362,3 +371,19 @@ package scheduler
 // that no waiter ever gets its final message).
 //@ func (*InMemoryBuildQueue).KillOperations
 //@   props C02 C06
+
+// ---------------------------------------------------------------------------
+// Time-outs are driven from every entry into the scheduler (C06)
+//@ ghost map cleanupsran(ref) int zero
+//@ func (*cleanupQueue).run
+//@   props C06
+//@   ensures everything-that-is-due-has-run: len(q.heap) == 0 || q.heap[0].timestamp > now
+
+// A worker that stopped synchronizing is forgotten and the task it was running
+// is failed (not left executing for ever); the removal of its queue is armed
+// only when that was the last worker of a removable queue.
+//@ func (*sizeClassQueue).removeStaleWorker
+//@   props C06 C01
+//@   at call complete#1 assert the-task-of-a-vanished-worker-is-failed-by-the-scheduler: arg0 == w.currentTask && !arg3
+//@   at call add#1 assert queue-removal-is-armed-only-for-a-removable-queue-without-workers: len(scq.workers) == 0 && scq.mayBeRemoved && arg1 == &scq.cleanupKey
+//@   ensures the-worker-is-forgotten: !(workerKey in scq.workers)
